@@ -451,6 +451,55 @@ fn part_b(ctx: &mut Ctx) {
     ] {
         shard_case(ctx, "Prio3SumVec::shard", c, &sv, &m, ok, json!({"max": 5, "len": 3, "m": format!("{m:?}")}));
     }
+    // Lattice of bounds (incl. the one-bit range) x out-of-range elements.
+    for max in [1u128, 2, 3, 4, 255, 256, (1 << 64) - 1, 1 << 64] {
+        let Ok(v) = Prio3SumVec::new_sum_vec(2, max, 3, 2) else { continue };
+        for bad in [max + 1, max + 2, 2 * max + 1, u128::MAX, u128::MAX - 1, 1 << 127] {
+            for pos in 0..3 {
+                let mut m = vec![0u128, max, max / 2];
+                m[pos] = bad;
+                shard_case(ctx, "Prio3SumVec::shard", "element>max", &v, &m, false, json!({"max": max.to_string(), "len": 3, "m": format!("{m:?}")}));
+            }
+        }
+        shard_case(ctx, "Prio3SumVec::shard", "in-range", &v, &vec![max, 0, max], true, json!({"max": max.to_string()}));
+        let Ok(l) = Prio3L1BoundSum::new_l1_bound_sum(2, max, 3, 2) else { continue };
+        for bad in [max + 1, 2 * max + 1, u128::MAX] {
+            for pos in 0..3 {
+                let mut m = vec![0u128; 3];
+                m[pos] = bad;
+                shard_case(ctx, "Prio3L1BoundSum::shard", "element>max", &l, &m, false, json!({"max": max.to_string(), "m": format!("{m:?}")}));
+            }
+        }
+        if max >= 1 {
+            // norm max + 1 spread over two coordinates
+            let m = vec![max, 1, 0];
+            shard_case(ctx, "Prio3L1BoundSum::shard", "norm>max", &l, &m, false, json!({"max": max.to_string(), "m": format!("{m:?}")}));
+            shard_case(ctx, "Prio3L1BoundSum::shard", "in-range", &l, &vec![0, max, 0], true, json!({"max": max.to_string()}));
+        }
+        if max <= u64::MAX as u128 {
+            let Ok(sm) = Prio3Sum::new_sum(2, max as u64) else { continue };
+            for bad in [max as u64 + 1, (max as u64).saturating_mul(2).saturating_add(1), u64::MAX] {
+                if bad as u128 > max {
+                    shard_case(ctx, "Prio3Sum::shard", "measurement>max", &sm, &bad, false, json!({"max": max.to_string(), "m": bad.to_string()}));
+                }
+            }
+        }
+    }
+    for (len, w) in [(1usize, 1usize), (4, 1), (4, 4), (9, 3)] {
+        let Ok(v) = Prio3MultihotCountVec::new_multihot_count_vec(2, len, w, 2) else { continue };
+        if w < len {
+            let mut m = vec![false; len];
+            for x in m.iter_mut().take(w + 1) {
+                *x = true;
+            }
+            shard_case(ctx, "Prio3MultihotCountVec::shard", "overweight", &v, &m, false, json!({"len": len, "max_weight": w}));
+        }
+        let mut m = vec![false; len];
+        for x in m.iter_mut().take(w.min(len)) {
+            *x = true;
+        }
+        shard_case(ctx, "Prio3MultihotCountVec::shard", "in-range", &v, &m, true, json!({"len": len, "max_weight": w}));
+    }
     let h = Prio3Histogram::new_histogram(2, 4, 2).unwrap();
     for (m, ok, c) in [(0usize, true, "in-range"), (3, true, "in-range"), (4, false, "bucket=length"), (5, false, "bucket=length+1"), (usize::MAX, false, "bucket=MAX")] {
         shard_case(ctx, "Prio3Histogram::shard", c, &h, &m, ok, json!({"length": 4, "bucket": m}));
@@ -627,6 +676,15 @@ impl Prio3Visitor for ProtoProbe<'_> {
             let mut pf = proofs_share.clone();
             pf.push(pf[0]);
             variants.push(("leader-proofs-share-long", Prio3InputShare::Leader { measurement_share: measurement_share.clone(), proofs_share: pf, joint_rand_blind: joint_rand_blind.clone() }));
+            let mut pf = proofs_share.clone();
+            let extra = (proofs_share.len() / cfg.proofs as usize).max(2) - 1;
+            for i in 0..extra {
+                pf.push(proofs_share[i % proofs_share.len()]);
+            }
+            variants.push(("leader-proofs-share-long-by-almost-a-proof", Prio3InputShare::Leader { measurement_share: measurement_share.clone(), proofs_share: pf, joint_rand_blind: joint_rand_blind.clone() }));
+            let mut pf = proofs_share.clone();
+            pf.extend_from_slice(&proofs_share[..proofs_share.len() / cfg.proofs as usize]);
+            variants.push(("leader-proofs-share-long-by-a-proof", Prio3InputShare::Leader { measurement_share: measurement_share.clone(), proofs_share: pf, joint_rand_blind: joint_rand_blind.clone() }));
             if jr {
                 variants.push(("leader-blind-missing", Prio3InputShare::Leader { measurement_share: measurement_share.clone(), proofs_share: proofs_share.clone(), joint_rand_blind: None }));
             } else {
@@ -643,9 +701,19 @@ impl Prio3Visitor for ProtoProbe<'_> {
                             states.push(s);
                         }
                     }
+                    let n_states = states.len();
                     if let Some(msg) = misuse(ctx, &format!("Prio3<{k}>::verifier_shares_to_message"), &format!("after-{name}"), wit.clone(), catch(|| vdaf.verifier_shares_to_message(b"c16", &(), vss))) {
+                        let mut finished = 0;
                         for s in states {
-                            let _ = misuse(ctx, &format!("Prio3<{k}>::verify_next"), &format!("after-{name}"), wit.clone(), catch(|| vdaf.verify_next(b"c16", s, msg.clone())));
+                            if let Some(VerifyTransition::Finish(_)) = misuse(ctx, &format!("Prio3<{k}>::verify_next"), &format!("after-{name}"), wit.clone(), catch(|| vdaf.verify_next(b"c16", s, msg.clone()))) {
+                                finished += 1;
+                            }
+                        }
+                        // A share of the wrong LENGTH must be refused by some operation.
+                        if finished == n_states && n_states == n && name.contains("share-") {
+                            ctx.violation(format!("Prio3<{k}>::verify_init|{name}|accepted-and-verified"),
+                                "a leader input share of the wrong length was accepted and the report completed verification at every aggregator",
+                                json!({"config": desc, "variant": name}));
                         }
                     }
                 }
